@@ -1,4 +1,5 @@
 (* wire glue for engine 1 (cell codec) *)
+(* WIRE engine=1 fn=dispatch_cell *)
 From Coq Require Import List NArith Bool.
 From RPFT Require Import Base.Sexp Base.PyStr Gen.Tables Cell.Cell Cell.CellFacts.
 Import ListNotations.
